@@ -7,6 +7,7 @@ import (
 	"context"
 	"fmt"
 	"io"
+	"math"
 	"net/http"
 	"strconv"
 	"strings"
@@ -52,6 +53,16 @@ var ResetReasonMap = map[string]fatalerror.ErrorType{
 }
 
 var MaxDirectResponseSize int64 = interop.MaxPayloadSize // this is intentionally not a constant so we can configure it via CLI
+
+// onePast returns limit+1, the number of bytes to read in order to tell an oversized response from one that
+// fits, without overflowing for the largest limit the MaxPayloadSize header accepts
+func onePast(limit int64) int64 {
+	if limit == math.MaxInt64 {
+		return limit
+	}
+	return limit + 1
+}
+
 var ResponseBandwidthRate int64 = interop.ResponseBandwidthRate
 var ResponseBandwidthBurstSize int64 = interop.ResponseBandwidthBurstSize
 
@@ -253,7 +264,7 @@ func asyncPayloadCopy(w http.ResponseWriter, payload io.Reader) (copyDone chan C
 			// Setting the limit to MaxDirectResponseSize + 1 so we can do
 			// readBytes > MaxDirectResponseSize to check if the response is oversized.
 			// As the response is allowed to be of the size MaxDirectResponseSize but not larger than it.
-			payload = io.LimitReader(payload, MaxDirectResponseSize+1)
+			payload = io.LimitReader(payload, onePast(MaxDirectResponseSize))
 		}
 
 		// FIXME: inject bandwidthlimiter as a dependency, so that we can mock it in tests
@@ -413,7 +424,7 @@ func sendPayloadLimitedResponse(payload io.Reader, trailers http.Header, w http.
 	// Setting the limit to MaxDirectResponseSize + 1 so we can do
 	// readBytes > MaxDirectResponseSize to check if the response is oversized.
 	// As the response is allowed to be of the size MaxDirectResponseSize but not larger than it.
-	written, err := io.Copy(w, io.LimitReader(payload, MaxDirectResponseSize+1))
+	written, err := io.Copy(w, io.LimitReader(payload, onePast(MaxDirectResponseSize)))
 
 	// non-streaming invoke request but runtime is streaming: set response trailers
 	if functionResponseMode == interop.FunctionResponseModeStreaming {
@@ -426,7 +437,7 @@ func sendPayloadLimitedResponse(payload io.Reader, trailers http.Header, w http.
 	if err != nil {
 		w.Header().Set(EndOfResponseTrailer, EndOfResponseTruncated)
 		err = &interop.ErrTruncatedResponse{}
-	} else if isNotStreamingInvoke && written == MaxDirectResponseSize+1 {
+	} else if isNotStreamingInvoke && written > MaxDirectResponseSize {
 		w.Header().Set(EndOfResponseTrailer, EndOfResponseOversized)
 		err = &interop.ErrorResponseTooLargeDI{
 			ErrorResponseTooLarge: interop.ErrorResponseTooLarge{
